@@ -246,9 +246,9 @@ fn snap_mc_down(c: &DownlinkRemoteSetup<'_>) -> (&'static str, Snap) {
 }
 
 /// Relations between derived accessors ('~' keys) and the fields, from the specifications.
-fn check_derived(name: &str, s: &Snap) -> Result<(), String> {
+fn check_derived(name: &str, s: &Snap) -> Result<(), (&'static str, String)> {
     let g = |k: &str| s.iter().find(|x| x.0 == k).map(|x| x.1);
-    let fail = |what: &str| Err(format!("derived accessor {} inconsistent: {:?}", what, s));
+    let fail = |what: &'static str| Err((what, format!("derived accessor {} inconsistent with the raw field: {:?}", what, s)));
     match name {
         "LinkADRAns" => {
             if g("~ack") != Some((g("channel_mask_ack") == Some(1) && g("data_rate_ack") == Some(1) && g("tx_power_ack") == Some(1)) as u128) {
@@ -936,8 +936,8 @@ fn judge_set(cmd: &Cmd, fi: usize, v: u64, before: &[u8], res: &Result<Result<()
         Ok((n, _)) => return bad("parses-as-other-command", format!("parsed as {}", n)),
         Err(e) => return bad("does-not-parse", e),
     };
-    if let Err(e) = check_derived(cmd.name, &sa) {
-        return bad("derived-accessor", e);
+    if let Err((acc, e)) = check_derived(cmd.name, &sa) {
+        return Verdict { class: "violation", fail: Some((format!("derived-accessor:{}", acc), e)) };
     }
     let sb = match snap_one(cmd.set, before) {
         Ok((_, s)) => s,
@@ -1052,10 +1052,14 @@ fn run_field(cmd: &Cmd, fi: usize, v: u64, sc: u8, rng: &mut Prng, col: &mut Col
     }
     if let Some((kind, text)) = vd.fail {
         let scn = ["fresh creator", "all fields pre-set", "same field pre-set to the complement"][sc as usize];
-        let oor = if (f.adm)(v) || kind == "later-set-does-not-override" { "" } else { "|out-of-range" };
+        let oor = if (f.adm)(v) || kind == "later-set-does-not-override" || kind.starts_with("derived-accessor:") { "" } else { "|out-of-range" };
+        let (subject, kind) = match kind.strip_prefix("derived-accessor:") {
+            Some(acc) => (acc.to_string(), "derived-accessor".to_string()),
+            None => (f.name.to_string(), kind),
+        };
         report(
             cmd,
-            f.name,
+            &subject,
             &format!("{}{}", kind, oor),
             vclass(f, v),
             &text,
@@ -1218,7 +1222,7 @@ fn push_case(nb: u8, ids: &[u8], rng: &mut Prng, col: &mut Collector) {
         };
         let admissible = cls == "admissible";
         let detail = |extra: Value| json!({"nb_total_groups": nb, "group_ids_pushed_before": model.iter().map(|m| m.0).collect::<Vec<_>>(), "group_id": id, "mc_addr": addr, "push_number": k + 1, "before": hex(&before), "more": extra});
-        let mut verdict = "roundtrip";
+        let verdict;
         let after = trap(|| (c.build().to_vec(), c.len()));
         match (&res, &after) {
             (Err(t), _) => {
@@ -1454,7 +1458,12 @@ fn sequence_case(rng: &mut Prng, col: &mut Collector) {
     let r = trap(|| (mac_commands_len(&refs), build_mac_commands(&refs, &mut buf[..])));
     let cls = format!("{}|sequence|n={}|{}", SETS[set], refs.len().min(9), if short { "short-buffer" } else if slack > 0 { "slack" } else { "exact" });
     let det = |buf: &[u8]| json!({"set": SETS[set], "commands": expect.iter().map(|e| json!([e.0, hex(&e.1)])).collect::<Vec<_>>(), "buffer_len": buflen, "buffer": hex(buf)});
-    let sig = |k: &str| format!("C19|sequence|{}|{}", SETS[set], k);
+    // build_mac_commands / mac_commands_len are shared by all sets; only parse-side failures
+    // are keyed by the set
+    let sig = |k: &str| match k {
+        "parse-panic" | "does-not-parse" | "parses-to-other-sequence" => format!("C19|sequence|{}|{}", SETS[set], k),
+        _ => format!("C19|sequence|build_mac_commands|{}", k),
+    };
     let mut verdict = "roundtrip";
     match r {
         Err(t) => {
@@ -1915,9 +1924,13 @@ impl Monitor for C19 {
                 }
             }
             "san-text" => {
+                // the Display impls of keys.rs write through `unsafe as_bytes_mut`: several
+                // values per type and process (i < 8 are the boundary values, the rest random)
                 let ty = idx / 16;
                 let fl = idx % 16;
-                text_case(ty, fl, rng, col);
+                for j in 0..6 {
+                    text_case(ty, (fl + 5 * j) % 24, rng, col);
+                }
             }
             "san-fields" => {
                 let pairs = field_pairs();
